@@ -5,6 +5,7 @@ import (
 	"go/ast"
 	"go/types"
 	"os"
+	"strings"
 
 	"verif/mlbcheck/chk"
 )
@@ -26,6 +27,12 @@ func init() {
 			"re-queue semantics.",
 		Run: runC19,
 		Mutants: []Mutant{
+			{Name: "config-file-not-truncated", File: "internal/bgp/frr/config.go",
+				Old: "\treturn os.WriteFile(filename, []byte(config), 0600)",
+				New: "\tf, err := os.OpenFile(filename, os.O_WRONLY|os.O_CREATE, 0600)\n\tif err != nil {\n\t\treturn err\n\t}\n\tdefer f.Close()\n\t_, err = f.WriteString(config)\n\treturn err", Expect: "replaces-the-whole-file"},
+			{Name: "action-blanks-passwords-in-place", File: "internal/bgp/frr/config.go",
+				Old: "\tconfigString, err := templateConfig(config)\n",
+				New: "\tfor _, r := range config.Routers {\n\t\tfor _, n := range r.Neighbors {\n\t\t\tn.Password = \"\"\n\t\t}\n\t}\n\tconfigString, err := templateConfig(config)\n", Expect: "ACTION-READONLY"},
 			{Name: "missing-pid-file-counts-as-reloaded", File: "internal/bgp/frr/config.go",
 				Old: "\tpid, err := os.ReadFile(reloaderPidFileName)\n", New: "\tpid, err := os.ReadFile(reloaderPidFileName)\n\tif os.IsNotExist(err) {\n\t\treturn nil\n\t}\n", Expect: "GENERATE"},
 			{Name: "reapply-before-first-config-ends-debouncer", File: "internal/bgp/frr/config.go",
@@ -416,6 +423,10 @@ func c19Submit(p *chk.Prog, r *chk.Report) {
 			return ok && len(rs.Results) == 1 && gf.IsNilLit(rs.Results[0])
 		}
 		for _, step := range []string{"templateConfig(C)", "writeConfig(S, configFileName)", "reloadConfig()"} {
+			if inPlace := "os.WriteFile(configFileName, []byte(S), M)"; strings.HasPrefix(step, "writeConfig") && len(g.FindPat(step)) == 0 && len(g.FindPat(inPlace)) > 0 {
+				// the one-line writeConfig written out where it was called
+				step = inPlace
+			}
 			w := g.MustPass(chk.Site{}, nilRet, false, gf.ContainsPat(step))
 			okErr := true
 			for _, rt := range g.Find(nilRet) {
@@ -425,6 +436,46 @@ func c19Submit(p *chk.Prog, r *chk.Report) {
 			}
 			gen.Check("generateAndReloadConfigFile:"+step, posOf(w, gf), !w.Found && okErr, "", "a reload can report success without "+step+" having run successfully (e.g. skipped because the file looks unchanged: a failed signal or a re-apply request is then never retried)")
 		}
+	}
+	// the action leaves the configuration it is given as it is: the debouncer keeps that object as the latest submission
+	// and hands it to every retry
+	if gf != nil {
+		ro := r.Rule("ACTION-READONLY", "D ownership (effects)", "generateAndReloadConfigFile and the functions of package frr it calls (templateConfig, writeConfig, helpers) store nothing through what they were handed: no assignment, ++/--, delete, in-place sort or set mutation whose target is reached from a parameter through a pointer, map or slice (a copy of the top-level struct still shares the routers and neighbours)", 2)
+		fns, _ := p.Closure(gf)
+		for _, cf := range fns {
+			if cf.Decl == nil || cf.Pkg.PkgPath != chk.Module+"/"+frrPkg {
+				continue
+			}
+			stores := storesThroughHanded(cf, true, nil)
+			what, pos := "", cf.Pos()
+			for _, st := range stores {
+				what += st.What + "; "
+				pos = st.Node.Pos()
+			}
+			ro.Check(cf.Decl.Name.Name+":no-store-through-its-arguments", pos, len(stores) == 0, "", cf.Decl.Name.Name+" stores through what it was handed ("+what+"a copy of the top-level struct still shares the routers and neighbours): the configuration is the debouncer's stored latest submission, and a retry or a re-apply request then applies the changed object, not what was submitted")
+		}
+	}
+	// the file that the reloader is told to load holds the submitted text and nothing else
+	if wf := p.LookupFunc(frrPkg, "", "writeConfig"); wf != nil {
+		wg := wf.Graph()
+		cfgP, fnP := isParamIdx(wf, 0), isParamIdx(wf, 1)
+		how := ""
+		switch {
+		case len(wg.FindPat("os.WriteFile(FN, []byte(C), M)", chk.H("FN", fnP), chk.H("C", cfgP))) > 0:
+			how = "os.WriteFile (truncates)"
+		case len(wg.FindPat("os.Create(FN)", chk.H("FN", fnP))) > 0:
+			how = "os.Create (truncates)"
+		case len(wg.FindPat("os.Rename(T, FN)", chk.H("FN", fnP))) > 0:
+			how = "written aside and renamed over the file"
+		default:
+			for _, o := range wg.FindPat("os.OpenFile(FN, FL, M)", chk.H("FN", fnP)) {
+				fl, okc := constInt(wf, wf.MatchNew("os.OpenFile(FN, FL, M)", o.Node.(ast.Expr))["FL"])
+				if okc && fl&os.O_TRUNC != 0 && fl&os.O_APPEND == 0 {
+					how = "os.OpenFile with O_TRUNC"
+				}
+			}
+		}
+		gen.Check("writeConfig:replaces-the-whole-file", wf.Pos(), how != "", how, "the configuration file is not replaced as a whole (no os.WriteFile / os.Create / O_TRUNC / rename): when the new text is shorter than the old one the tail of the old configuration stays in the file the reloader loads")
 	}
 	// the reload signal itself: success means the reloader was signalled
 	rc := need(gen, p, frrPkg, "", "reloadConfig")
